@@ -125,3 +125,40 @@ pub fn seed_from_normalised(canonical_phrase: &str, nfkd_passphrase: &str) -> [u
     let v = super::pbkdf2_hmac_sha512(canonical_phrase.as_bytes(), &salt, 2048, 64);
     v.try_into().unwrap()
 }
+
+/// A valid mnemonic of `words` words whose words are as long (`long = true`) or as short as possible:
+/// all but the last word are drawn (by `pick`) from the longest / shortest words of the list and the last
+/// word is the longest / shortest of the final words the checksum allows. Returns the entropy.
+pub fn entropy_with_word_lengths(words: usize, long: bool, mut pick: impl FnMut(usize) -> usize) -> Vec<u8> {
+    let l = list();
+    let mut by_len: Vec<u16> = (0..2048u16).collect();
+    by_len.sort_by_key(|i| {
+        let n = l.words[*i as usize].len() as i32;
+        (if long { -n } else { n }, *i)
+    });
+    let pool = &by_len[..200];
+    let mut idx: Vec<u16> = (0..words - 1).map(|_| pool[pick(pool.len())]).collect();
+    let mut best: Option<(u16, usize)> = None;
+    for w in 0..2048u16 {
+        idx.push(w);
+        if decode_indices(&idx).is_ok() {
+            let n = l.words[w as usize].len();
+            let better = match best {
+                None => true,
+                Some((_, bn)) => {
+                    if long {
+                        n > bn
+                    } else {
+                        n < bn
+                    }
+                }
+            };
+            if better {
+                best = Some((w, n));
+            }
+        }
+        idx.pop();
+    }
+    idx.push(best.expect("some final word satisfies the checksum").0);
+    decode_indices(&idx).expect("valid by construction")
+}
